@@ -93,19 +93,23 @@ pub fn qptsr3(q: &mut Q, pts: &[Point3], s: f64) -> Vec<Vec<i64>> {
 fn lval(l2: i64, e: i64, s: f64) -> f64 {
     nudge(l2 as f64 / 2.0 * s, e)
 }
+/// records flagged `nz` hand every arc length that is zero over as NEGATIVE zero (what `x.clamp(0.0, L)` or `0.0 * -k`
+/// produce for "the front"): -0.0 == 0.0, so it is the same request
+fn negz(nz: bool, x: f64) -> f64 { if nz && x == 0.0 { -0.0 } else { x } }
 
 pub fn exec(rec: &Value, st: &mut State) -> Value {
     let op = gs(rec, "op");
     let mut q = Q::new();
     match op {
         "stations" => {
+            let nzf = gi_or(rec, "nz", 0) == 1;
             let dim = gi(rec, "dim");
             let ls = gvvi(rec, "ls");
             let fs = gvi(rec, "fs");
             if dim == 2 {
                 let (s, c) = build2(rec);
                 let c = match c { Ok(c) => c, Err(_) => return json!({"ok": false}) };
-                let qs: Vec<Value> = ls.iter().map(|l| st2(&mut q, c.at_length(lval(l[0], l[1], s)), s)).collect();
+                let qs: Vec<Value> = ls.iter().map(|l| st2(&mut q, c.at_length(negz(nzf, lval(l[0], l[1], s))), s)).collect();
                 let total = c.length();
                 let qf: Vec<Value> = fs.iter().map(|l2| st2(&mut q, c.at_fraction((*l2 as f64 / 2.0 * s) / total), s)).collect();
                 let it: Vec<Value> = c.iter().map(|x| st2(&mut q, Some(x), s)).collect();
@@ -117,7 +121,7 @@ pub fn exec(rec: &Value, st: &mut State) -> Value {
             } else {
                 let (s, c) = build3(rec);
                 let c = match c { Ok(c) => c, Err(_) => return json!({"ok": false}) };
-                let qs: Vec<Value> = ls.iter().map(|l| st3(&mut q, c.at_length(lval(l[0], l[1], s)), s)).collect();
+                let qs: Vec<Value> = ls.iter().map(|l| st3(&mut q, c.at_length(negz(nzf, lval(l[0], l[1], s))), s)).collect();
                 let total = c.length();
                 let qf: Vec<Value> = fs.iter().map(|l2| st3(&mut q, c.at_fraction((*l2 as f64 / 2.0 * s) / total), s)).collect();
                 let it: Vec<Value> = c.iter().map(|x| st3(&mut q, Some(x), s)).collect();
@@ -161,6 +165,7 @@ pub fn exec(rec: &Value, st: &mut State) -> Value {
                 Ok(c) => {
                     let o = piece(&mut q, &c, s);
                     st.slots.insert("cur".into(), Box::new((c, s)));
+                    st.slots.insert("nz".into(), Box::new(gi_or(rec, "nz", 0) == 1));
                     json!({"ok": true, "piece": o, "finite": q.finite})
                 }
                 Err(_) => json!({"ok": false}),
@@ -171,15 +176,16 @@ pub fn exec(rec: &Value, st: &mut State) -> Value {
                 Some(x) => (x.0.clone(), x.1),
                 None => return json!({"no_current": true}),
             };
+            let nz = st.slots.get("nz").and_then(|b| b.downcast_ref::<bool>()).copied().unwrap_or(false);
             let lv = |key: &str| -> f64 {
                 let v = gvi(rec, key);
-                if v[1] == 1 { cur.length() - v[0] as f64 / 2.0 * s } else { v[0] as f64 / 2.0 * s }
+                negz(nz, if v[1] == 1 { cur.length() - v[0] as f64 / 2.0 * s } else { v[0] as f64 / 2.0 * s })
             };
             let mut next: Option<Curve2> = None;
             let out = match op {
                 "between" => { let r = cur.between_lengths(lv("l0"), lv("l1")); let o = opt_piece(&mut q, &r, s); next = r; o }
                 "bycontrol" => { let r = cur.between_lengths_by_control(lv("a"), lv("b"), lv("c")); let o = opt_piece(&mut q, &r, s); next = r; o }
-                "trim_front" => { let x = { let v = gvi(rec, "x"); if v[1] == 1 { cur.length() - v[0] as f64 / 2.0 * s } else { v[0] as f64 / 2.0 * s } }; let r = cur.trim_front(x); let o = opt_piece(&mut q, &r, s); next = r; o }
+                "trim_front" => { let x = lv("x"); let r = cur.trim_front(x); let o = opt_piece(&mut q, &r, s); next = r; o }
                 "trim_back" => { let x = lv("x"); let r = cur.trim_back(x); let o = opt_piece(&mut q, &r, s); next = r; o }
                 "reversed" => { let r = Some(cur.reversed()); let o = opt_piece(&mut q, &r, s); next = r; o }
                 "split_open" => {
